@@ -60,6 +60,14 @@ def gen_rrl(mod):
             raise mod.ExtractError(f"{REL}: subject_to_rrl: unknown Opcode::{m.group(1)}")
         if t.group(1) not in ("Udp", "Tcp"):
             raise mod.ExtractError(f"{REL}: subject_to_rrl: unknown Transport::{t.group(1)}")
+        # --- QNAME used for a NOERROR response without question (D17) ----------------------------
+        blk = mod.block_after(src, r"\bfn\s+process_response\b", f"{REL}: process_response")
+        if re.search(r"context\s*\.\s*question\s*\.\s*as_ref\(\)\s*\.\s*unwrap\(\)", blk):
+            fallback_root = False
+        elif re.search(r"else\s*\{\s*Name::root\(\)\s*\}", blk):
+            fallback_root = True
+        else:
+            raise mod.ExtractError(f"{REL}: process_response: QNAME selection for the hash not understood")
         out = mod.gen_header("response rate limiting: defaults, category arms, limited opcode/transport",
                              [REL, "src/message/rcode.rs", "src/message/opcode.rs"])
         out += f"/-- `{REL}`: `RrlParams::new` default `slip` -/\ndef RRL_DEFAULT_SLIP : Nat := {vals['slip']}\n"
@@ -71,8 +79,11 @@ def gen_rrl(mod):
                 f"def rrlCategoryCode (rcode : Nat) : Nat := {expr}\n")
         out += f"/-- `{REL}`: `subject_to_rrl` limits only `Opcode::{m.group(1)}` … -/\ndef RRL_LIMITED_OPCODE : Nat := {ops[m.group(1)]}\n"
         out += f"/-- … received over `Transport::{t.group(1)}` (1 = Udp, 0 = Tcp) -/\ndef RRL_LIMITED_TRANSPORT_IS_UDP : Bool := {'true' if t.group(1) == 'Udp' else 'false'}\n"
+        out += (f"/-- `{REL}`: `process_response` hashes `Name::root()` for a NOERROR response that has neither a source of "
+                f"synthesis nor a question (false = it `unwrap`s the question and panics) -/\n"
+                f"def RRL_QNAME_FALLBACK_IS_ROOT : Bool := {'true' if fallback_root else 'false'}\n")
         out += "\nend QV.Gen\n"
-        return out, {"defaults": vals, "category_arms": rows, "opcode": m.group(1), "transport": t.group(1)}
+        return out, {"defaults": vals, "category_arms": rows, "opcode": m.group(1), "transport": t.group(1), "qname_fallback_root": fallback_root}
     return fn
 
 
